@@ -91,6 +91,28 @@ impl GenerationCache {
         }
     }
 
+    /// Check that every file a generation run writes is still present in the output directory.
+    ///
+    /// A matching cache record only says that nothing changed since the files were written;
+    /// it cannot know that one of them was deleted afterwards.
+    pub fn outputs_present<P: AsRef<Path>>(
+        output_dir: P,
+        has_events: bool,
+        visualize_deps: bool,
+    ) -> bool {
+        let mut expected = vec!["types.ts", "commands.ts", "index.ts"];
+        if has_events {
+            expected.push("events.ts");
+        }
+        if visualize_deps {
+            expected.push("dependency-graph.txt");
+            expected.push("dependency-graph.dot");
+        }
+        expected
+            .iter()
+            .all(|name| output_dir.as_ref().join(name).is_file())
+    }
+
     /// Check if generation is needed by comparing with previous cache
     pub fn needs_regeneration<P: AsRef<Path>>(
         output_dir: P,
